@@ -197,6 +197,7 @@ def project(addr, head, client_url, proxied):
                 cookies.append(nm[2:] if nm.startswith('c_') else 'other')
     return {'e': 'send',
             'at': {'host': h or 'proxy', 'scheme': sch or 'http', 'port': pc or 'def'},
+            'pn': addr[1],
             'url': client_url,
             'target': blk['target'], 'method': blk['method'],
             'hosts': [v for n, v in f if n == 'host'],
